@@ -242,7 +242,10 @@ func (s *AccumulatingGroup) Groups(sort sorting.NameSorter) []GroupKey {
 		sorting.SortBy(ret, sort, func(x GroupKey) string {
 			ctx.groupKey = string(x)
 			ctx.rowLookup = func(row string) string {
-				return s.data[x][s.colIdxLookup[row]]
+				if idx, ok := s.colIdxLookup[row]; ok {
+					return s.data[x][idx]
+				}
+				return ""
 			}
 			return s.sortExpr.BuildKey(&ctx)
 		})
